@@ -22,6 +22,9 @@ pub struct Inner {
     pub sch: Schedule,
     #[serde(default)]
     pub faults: Vec<crate::hooks::RaceFault>,
+    /// Run the delete/gc with the other value of `break_lock` than the case's.
+    #[serde(default)]
+    pub flip_break_lock: bool,
 }
 
 #[derive(Debug, Clone, Serialize, Deserialize)]
@@ -226,7 +229,7 @@ fn run(case: &Case, cx: &mut Cx) -> CaseResult {
     let crit = [scen::thin(&g_crit, cx.tier.pick(6, 10)), scen::thin(&b_crit, cx.tier.pick(6, 10))];
     let mut schedules = race::enumerate_keyed(&all, &crit);
     schedules.extend(case.random.iter().map(|r| Schedule(r.clone())));
-    let mut runs: Vec<Inner> = schedules.into_iter().map(|sch| Inner { sch, faults: vec![] }).collect();
+    let mut runs: Vec<Inner> = schedules.into_iter().map(|sch| Inner { sch, faults: vec![], flip_break_lock: false }).collect();
     // One transient storage error in the collector while the backup is under way (the
     // collector starts after the backup has performed p operations and then runs through),
     // and one in the backup's own look at the lock / the version list while the collector
@@ -248,6 +251,7 @@ fn run(case: &Case, cx: &mut Cx) -> CaseResult {
                     runs.push(Inner {
                         sch: Schedule(vec![(1, *p), (0, u16::MAX)]),
                         faults: vec![RaceFault { actor: 0, verb: None, prefix: String::new(), nth, kind }],
+                        flip_break_lock: false,
                     });
                 }
             }
@@ -259,15 +263,24 @@ fn run(case: &Case, cx: &mut Cx) -> CaseResult {
                     runs.push(Inner {
                         sch: Schedule(vec![(0, *p), (1, u16::MAX)]),
                         faults: vec![RaceFault { actor: 1, verb: Some(verb), prefix: prefix.to_string(), nth, kind }],
+                        flip_break_lock: false,
                     });
                 }
             }
         }
     }
+    // The other value of break_lock, over the schedules in which one actor starts while the
+    // other is paused at one of its critical points.
+    for p in scen::thin(&crit[1], cx.tier.pick(8, 10)) {
+        runs.push(Inner { sch: Schedule(vec![(1, p), (0, u16::MAX)]), faults: vec![], flip_break_lock: true });
+    }
+    for p in scen::thin(&crit[0], cx.tier.pick(8, 10)) {
+        runs.push(Inner { sch: Schedule(vec![(0, p), (1, u16::MAX)]), faults: vec![], flip_break_lock: true });
+    }
     let only: Option<Inner> = cx.only_inner.as_ref().and_then(|v| {
         serde_json::from_value::<Inner>(v.clone())
             .ok()
-            .or_else(|| serde_json::from_value::<Schedule>(v.clone()).ok().map(|sch| Inner { sch, faults: vec![] }))
+            .or_else(|| serde_json::from_value::<Schedule>(v.clone()).ok().map(|sch| Inner { sch, faults: vec![], flip_break_lock: false }))
     });
     let mut evals = 0u64;
     let mut nontrivial = 0u64;
@@ -286,6 +299,7 @@ fn run(case: &Case, cx: &mut Cx) -> CaseResult {
         let src = w.src.clone();
         let ids = delete_ids.clone();
         let bo = case.backup_opts;
+        let break_lock = break_lock != inner.flip_break_lock;
         let out = race::run_with_faults(
             &w.arch,
             vec![
@@ -380,7 +394,7 @@ pub fn prop() -> Prop<Case> {
             "interleaving granularity is one transport operation; storage is sequentially consistent",
             "switch points are restricted to operations bracketing lock, listing and mutating operations, so the <=3-switch space is covered where it can matter, not exhausted",
         ],
-        cases: |t| t.pick(8, 300),
+        cases: |t| t.pick(16, 300),
         strategy,
         run,
         enumerate: None,
